@@ -411,12 +411,34 @@ func (p *Prog) inspectRegion(key string, f func(rf *FuncInfo, n ast.Node) bool) 
 	}
 }
 
+// inlinedInto: an audited anchor that no longer exists because it was inlined into its only caller is represented by
+// that caller (the reverse of extracting a helper).  One line per anchor that has exactly one caller today.
+var inlinedInto = map[string]string{
+	"config.resolveOutputPackage": "config.parseConverter",
+}
+
+// anchorOrCaller returns the anchor function, or — when it was inlined away — its documented single caller.
+func (p *Prog) anchorOrCaller(anchor string) *FuncInfo {
+	if fi := p.Func(anchor); fi != nil {
+		return fi
+	}
+	if c, ok := inlinedInto[anchor]; ok {
+		return p.Func(c)
+	}
+	return nil
+}
+
 func (p *Prog) anchorFor(fi *FuncInfo, anchors []string) string {
 	if fi == nil {
 		return ""
 	}
 	for _, a := range anchors {
 		if a == fi.Name() {
+			return a
+		}
+	}
+	for _, a := range anchors {
+		if c, ok := inlinedInto[a]; ok && p.Func(a) == nil && c == fi.Name() {
 			return a
 		}
 	}
